@@ -166,3 +166,25 @@ NC_STD = {
     2022: by_status(2022, 12750, 25500, 12750, 19125),
     2023: by_status(2023, 12750, 25500, 12750, 19125),
 }
+
+# 2021 Recovery Rebate Credit Worksheet (Form 1040 instructions 2021, line 30): phase-out starts / ends / range; amount per person
+REBATE_START = {2021: by_status(2021, 75000, 150000, 75000, 112500)}
+REBATE_END = {2021: by_status(2021, 80000, 160000, 80000, 120000)}
+REBATE_RANGE = {2021: by_status(2021, 5000, 10000, 5000, 7500)}
+REBATE_PER_PERSON = {2021: 1400}
+
+# NC child deduction per qualifying child by federal AGI (D-401 instructions, Child Deduction Table).
+# list of (AGI upper bound inclusive, amount); above the last bound the deduction is 0.
+def _nc_child(year, scale):
+    amounts = [2500, 2000, 1500, 1000, 500] if year == 2021 else [3000, 2500, 2000, 1500, 1000, 500]
+    return [(scale * (k + 2), a) for k, a in enumerate(amounts)]
+
+
+NC_CHILD = {}
+for _y in (2021, 2022, 2023):
+    _q = 'QualifyingWidowWidower' if _y == 2021 else 'QualifyingSurvivingSpouse'
+    NC_CHILD[_y] = {'MarriedFilingJointly': _nc_child(_y, 20000), _q: _nc_child(_y, 20000), 'HeadOfHousehold': _nc_child(_y, 15000),
+                    'Single': _nc_child(_y, 10000), 'MarriedFilingSeparately': _nc_child(_y, 10000)}
+
+# constants that may appear in the decision "is Form 8959 required": the employer withholding trigger and the status threshold
+ADDL_MEDICARE_SET = {y: {m: {ADDL_MEDICARE_WITHHOLD, v} for m, v in ADDL_MEDICARE[y].items()} for y in (2021, 2022, 2023)}
